@@ -226,7 +226,9 @@ fn count_lines(s: &str) -> usize {
 }
 
 fn count_entries(text: &str) -> usize {
-    parseobs::observe_parse(text).entries.len()
+    // a helper of the generator: a panic of the implementation here (rendering the error) is not an
+    // observation of this helper - the legs that observe diagnostics report it
+    std::panic::catch_unwind(|| parseobs::observe_parse(text).entries.len()).unwrap_or(0)
 }
 
 /// where the files of a tree live: the root, the chain of included files below it (paths
@@ -502,7 +504,7 @@ fn gen_eol_case(r: &mut Rng, bads: &[Bad], first_eol: usize, k: usize) -> (Case,
 
 /// does the real parser stop exactly at a line end (or at the end of the text)?
 fn stops_at_line_end(text: &str) -> Option<bool> {
-    let o = parseobs::observe_parse(text);
+    let o = std::panic::catch_unwind(|| parseobs::observe_parse(text)).ok()?;
     let e = o.err.as_ref()?;
     let pos = e.text_start + e.span.0;
     Some(match text.as_bytes().get(pos) {
